@@ -208,6 +208,9 @@ def flowset_repetition_rule(ctx, prog, an, rule, label="v9"):
             sites.append(p)
     ctx.floor(rule, "v9", "bodies that apply v9::FlowSet::parse", len(sites), 1)
     allowed = ("empty", "count-reached", "iter-exhausted")
+    import re as _re2
+    for owner in sorted(set(_re2.sub(r"(::\{closure#\d+\})+$", "", p) for p in sites)):
+        cursor_integrity(ctx, prog, an, rule, owner, label)
     for p in sorted(sites):
         b = classifier_inlined(prog, p) or prog.bodies[p]
         ds = [blk for blk, t, c in b.calls() if c is not None and c.local and c.path == target]
@@ -219,6 +222,41 @@ def flowset_repetition_rule(ctx, prog, an, rule, label="v9"):
                    ("the flowset repetition can finish with Ok, leaving input undecoded, under a condition that is not `input empty / count reached`: %s"
                     % [(k, w, b.line(u)) for (u, v, k, w) in bad]) if bad else
                    "ways to finish without decoding the rest: %s" % sorted(set(k for (_, _, k, _) in edges)), site=b.line(d))
+
+
+def cursor_integrity(ctx, prog, an, rule, p, label):
+    """Between two flowsets nothing but the flowset parser moves the cursor: the remainder the repetition hands to
+    the next flowset and finally returns is, link by link, the remainder a parser application returned - never a
+    sub-slice cut by hand (`&rest[n..]`, a "skip padding" helper), which would drop bytes no header accounts for."""
+    import re as _re
+    from . import consume
+    from .layout import Layouts
+    lay = Layouts(prog, an)
+    owner = _re.sub(r"(::\{closure#\d+\})+$", "", p)
+    bodies = [prog.bodies[q] for q in sorted(prog.bodies) if q == owner or q.startswith(owner + "::{closure")]
+    bad = []
+    n = 0
+    for b in bodies:
+        ty = b.local_ty(0)
+        if "[u8]" not in ty.split(",")[0]:
+            continue
+        members, _ = consume._ok_members(an, b)
+        for c, _v in members:
+            n += 1
+            for st in consume.chain_steps(an, lay, an.expand(c)):
+                if st[0] != "?":
+                    continue
+                x = peel(st[1])
+                while x[0] in ("ref", "deref"):
+                    x = peel(x[1])
+                if x[0] == "tfield" and x[1][0] in ("ok", "some") and peel(x[1][1])[0] == "cycle":
+                    continue          # the loop-carried remainder of the parser call itself
+                if x[0] in ("cycle", "mutlocal"):
+                    continue
+                bad.append((b.path, canon(x)[:140]))
+    ctx.ob(rule, owner, "cursor-is-the-parser-remainder:%s" % label, not bad,
+           ("the cursor of the flowset repetition is re-cut by hand in %s: %s - bytes skipped this way belong to no flowset" % (bad[0][0], bad[0][1])) if bad
+           else "%d returned cursor(s): every link is the remainder of a parser application" % n, site=site(prog.bodies[owner].span) if owner in prog.bodies else "")
 
 
 def _plain_count(e):
